@@ -187,7 +187,10 @@ func (globber *Globber) walkDir(rootPath string) (walkedDir, error) {
 		}
 		// Exclude plz-out
 		if d.Name() == "plz-out" && rootPath == "." {
-			return filepath.SkipDir
+			if d.IsDir() {
+				return filepath.SkipDir
+			}
+			return nil // Returning SkipDir for a non-directory would skip the rest of its parent
 		}
 		if typeMode.IsSymlink() {
 			dir.symlinks = append(dir.symlinks, path)
